@@ -1,1 +1,9 @@
 import AL.Props.C04
+#print axioms AL.C04.parse_sound
+#print axioms AL.C04.parse_complete
+#print axioms AL.C04.parse_iff
+#print axioms AL.C04.fuel_enough_counterexample
+#print axioms AL.C04.fuel_enough'
+#print axioms AL.C04.der_unambiguous
+#print axioms AL.C04.precedence
+#print axioms AL.C04.exPre_der
